@@ -346,6 +346,16 @@ Theorem c19_is_repeated_no_overflow : forall a,
 Proof. exact is_repeated_no_overflow. Qed.
 Print Assumptions c19_is_repeated_no_overflow.
 
+(* closed form of try_bit_flips — order and multiplicity included: nothing when the examined value is accessible; otherwise,
+   for the bits lo, lo+1, .., hi-1 of the range in this order, the null candidate (if the neighbour is 0) followed by the
+   mapped candidate (if the lookup places the neighbour in a region permitting the access) *)
+Theorem c19_try_bit_flips_exact : forall a reg br ctx rs op,
+  try_bit_flips a reg br ctx rs op =
+  if (match lookup_region rs a with Some mi => possibly_allowed op mi | None => false end) then []
+  else flat_map (flips_at a reg br ctx rs op) (zrange (br_lo br) (Z.to_nat (br_hi br - br_lo br))).
+Proof. exact try_bit_flips_exact. Qed.
+Print Assumptions c19_try_bit_flips_exact.
+
 (* ---- non-vacuity ---- *)
 Example c19_nonvacuous_flip :
   let rs := [region_of_info 524288 8 0] in
